@@ -9,6 +9,13 @@ LEVEL_NOTE = ("Trusted base: clang 14 front end and CFG builder, the gsa-extract
               "Assumes the shipped configuration (GALOIS_USE_LONGJMP_ABORT, NDEBUG).")
 
 CHECKS = {
+    "C06": ("for the memory orders the code requests: every atomic access on a promised synchronisation edge (lock and "
+            "lockable hand-over, barrier arrival/departure, loop entry/return, bucket discovery, termination tokens) is "
+            "classified by (function, object, kind) and must request at least the order its role needs; lock acquisition is "
+            "a single RMW whose result decides; unlock stores clear the lock bit; every lock acquisition in the analysed "
+            "units is released exactly once on all paths; all synchronisation fields are std::atomic. Necessary and "
+            "sufficient for the C++ happens-before edge given reads-from; fairness and reads-from are not decided.",
+            "memory-order role table (MO) + lock typestate (LOCK) over clang AST facts", "4 C06"),
     "C01": ("exhaustive evaluation of the structural obligations of work conservation (commit publishes exactly the push "
             "buffer then clears it, abort re-queues once and never publishes, popped item = processed item, no fast "
             "push-back when aborts are possible, aborted work retried every round, every work result reaches the "
@@ -66,7 +73,7 @@ def main():
         "hooks": {
             "guard": "GALOIS_VERIF",
             "enable": "none needed: the analysis reads the unmodified sources; no hook commits exist",
-            "baseline_off_cmd": "cmake --build /repo/_build -j16 && ctest --test-dir /repo/_build -j8 --timeout 900",
+            "baseline_off_cmd": "/verif/scripts/baseline.sh",
             "source_commits": [],
             "add_only": True,
         },
